@@ -67,6 +67,8 @@ def program_cases(hazards, fixtures=True, include=None):
 
 def source_of(pc):
     """-> (source text, files dict or None, label) or (None, None, reason)."""
+    if pc[0] == "text":
+        return pc[2], None, "profile:" + pc[1]
     if pc[0] == "gen":
         try:
             return printer.to_source(pc[2])[0], None, "profile:" + pc[1]
